@@ -355,3 +355,21 @@ Theorem C11_chan_per_session_refuted :
   app_received (conn_run false false 0 two_sessions) = [pkt 1; pkt 2] /\
   app_received (conn_run false true 0 two_sessions) = [pkt 1].
 Proof. exact chan_per_session_refuted. Qed.
+
+(** Only the 12-byte tcp.pong (and auth nonces) are the reader's own: a payload
+    that merely starts with the pong magic is data and is delivered. *)
+Theorem C11_pong_magic_consumed_iff :
+  forall p, magic_type p = magic_tcp_pong -> (is_control p = true <-> len p = 12).
+Proof. exact pong_magic_consumed_iff. Qed.
+
+Theorem C11_data_packet_delivered :
+  forall p g t elapsed,
+  is_control p = false -> g < reconnect_timeout_ms ->
+  fst (reader_run false elapsed (APacket g p :: t)) = p :: fst (reader_run false (elapsed + g) t).
+Proof. exact data_packet_delivered. Qed.
+
+Theorem C11_pong_prefix_refuted :
+  magic_type pong_like = magic_tcp_pong /\ len pong_like = 13 /\
+  reader_run false 0 [APacket 100 pong_like] = ([pong_like], SRunning) /\
+  is_control_ge pong_like = true.
+Proof. exact pong_prefix_refuted. Qed.
